@@ -110,6 +110,16 @@ def gen_proc(rng):
         else:
             steps.append(dict(a="frame", d=frame if rng.random() < 0.95 else rng.choice([0, 10 * frame, k * bucket * fps * 2]),
                               motion=(True if cont else rng.random() < 0.7), ok=rng.random() < 0.97, sok=rng.random() < 0.9))
+    # stretches with too little free disk space (the storage layer's check fails): nothing may be started on them
+    if rng.random() < 0.5:
+        i = 0
+        while i < len(steps):
+            if rng.random() < 0.08:
+                for st in steps[i:i + rng.randint(3, 25)]:
+                    if st["a"] == "frame":
+                        st["disk"] = False
+                i += 25
+            i += 1
     return dict(mode="proc", cfg=dict(fps=fps, bucket=bucket, k=k, preview=preview, trig=trig, min=mn, max=mx), steps=steps)
 
 
